@@ -51,17 +51,20 @@ structure Obs where
   bals : AMap (Addr × ClassId) Nat := []
   deriving Repr, Inhabited
 
-/-- the observation of a model state: balances as `GetBalance` would report them -/
-def obsOf (s : State) : Obs :=
-  { st := s,
-    bals := (Tbl.live s.idx).foldl (fun m e => AMap.set m (e.1.1, e.1.2.1) (balanceOf s e.1.1 e.1.2.1)) [] }
-
 def liveTokens (s : State) : List (ClassId × TokenId) := (Tbl.live s.tokens).map (·.1)
 def liveOwners (s : State) : List (ClassId × TokenId) := (Tbl.live s.owners).map (·.1)
 def liveIdx (s : State) : List (Addr × ClassId × TokenId) := (Tbl.live s.idx).map (·.1)
 def classIds (s : State) : List ClassId := s.classes.map (·.1)
 
 def balOf (o : Obs) (a : Addr) (c : ClassId) : Nat := AMap.getD o.bals (a, c) 0
+
+/-- the (owner, class) pairs that have an owner-index entry -/
+def balPairs (s : State) : List (Addr × ClassId) := (liveIdx s).map fun i => (i.1, i.2.1)
+
+/-- the observation of a model state: balances as `GetBalance` would report them, one entry per
+(owner, class) pair with an index entry -/
+def obsOf (s : State) : Obs :=
+  { st := s, bals := (balPairs s).foldl (fun m k => AMap.set m k (balanceOf s k.1 k.2)) [] }
 
 /-- every token has exactly one owner: an owner key, and exactly one index entry, under that owner -/
 def oneOwnerB (s : State) : Bool :=
@@ -77,10 +80,12 @@ def noGhostB (s : State) : Bool :=
   ((liveTokens s).all fun k => hasClass s k.1)
 
 /-- supply(class) = number of its tokens = Σ over owners of the reported balances; every
-reported balance is the number of tokens recorded for that owner -/
+reported balance is the number of tokens recorded for that owner. The supply is a `uint64`
+counter the code increments and decrements unchecked, so the comparison is modulo 2^64 — the
+statement `Inv.supply_count` proves (identical to plain equality below 2^64 tokens per class). -/
 def supplyB (o : Obs) : Bool :=
   ((classIds o.st).all fun c =>
-    supplyOf o.st c == tokenCount o.st c &&
+    supplyOf o.st c == tokenCount o.st c % u64 &&
     tokenCount o.st c == ((o.bals.filter fun e => e.1.2 == c).map (·.2)).sum) &&
   (o.bals.all fun e => e.2 == ((liveOwners o.st).filter fun k =>
       k.1 == e.1.2 && ownerOf o.st k.1 k.2 == some e.1.1).length)
@@ -116,6 +121,25 @@ def sameObs (pre post : Obs) : Bool :=
   tokensSameExcept pre.st post.st [] && ownersSameExcept pre.st post.st [] && idxSame pre.st post.st [] &&
   classesSameExcept pre.st post.st [] && supplySameExcept pre.st post.st [] && balsSame pre post
 
+/-- is `op` the burn / mint / transfer of token `(c, t)`? -/
+def opBurns (op : Op) (c : ClassId) (t : TokenId) : Bool :=
+  match op with | .burn _ c' t' => c' == c && t' == t | _ => false
+def opMints (op : Op) (c : ClassId) (t : TokenId) : Bool :=
+  match op with | .mint _ _ c' t' _ _ _ _ => c' == c && t' == t | _ => false
+def opTransfers (op : Op) (c : ClassId) (t : TokenId) : Bool :=
+  match op with | .transfer _ _ c' t' _ _ _ _ => c' == c && t' == t | _ => false
+/-- is `op` a TransferDenom of class `c` sent by its current creator, after which the recipient is the creator? -/
+def opHandsOver (pre : State) (op : Op) (post : State) (c : ClassId) : Bool :=
+  match op with
+  | .transferDenom sender rcpt c' => c' == c && creatorOf pre c == some sender && creatorOf post c == some rcpt
+  | _ => false
+
+/-- class `c` still exists with the same restriction flags -/
+def flagsStable (pre post : State) (c : ClassId) : Bool :=
+  match AMap.get? pre.classes c, AMap.get? post.classes c with
+  | some a, some b => a.mintRestricted == b.mintRestricted && a.updateRestricted == b.updateRestricted
+  | _, _ => false
+
 /-- clauses that hold across *every* accepted message:
  * a class never disappears, and its restriction flags never change;
  * its creator changes only through TransferDenom sent by the current creator;
@@ -123,27 +147,20 @@ def sameObs (pre post : Obs) : Bool :=
  * a token disappears only through its own burn, appears only through its own mint, and its
    owner changes only through its own transfer. -/
 def globalFail (pre : State) (op : Op) (post : State) : Option String :=
-  if !((classIds pre).all fun c =>
-        match AMap.get? pre.classes c, AMap.get? post.classes c with
-        | some a, some b => a.mintRestricted == b.mintRestricted && a.updateRestricted == b.updateRestricted
-        | _, _ => false) then some "class-stable"
+  if !((classIds pre).all fun c => flagsStable pre post c) then some "class-stable"
   else if !((classIds pre).all fun c =>
-        creatorOf post c == creatorOf pre c ||
-        (match op with
-         | .transferDenom sender rcpt c' => c' == c && creatorOf pre c == some sender && creatorOf post c == some rcpt
-         | _ => false)) then some "class-handover"
+        creatorOf post c == creatorOf pre c || opHandsOver pre op post c) then some "class-handover"
   else if !((liveTokens pre).all fun k =>
         !(updateRestricted pre k.1) || !(hasNFT post k.1 k.2) || tokenOf post k.1 k.2 == tokenOf pre k.1 k.2)
       then some "update-restricted"
   else if !((liveTokens pre).all fun k =>
-        hasNFT post k.1 k.2 || (match op with | .burn _ c t => c == k.1 && t == k.2 | _ => false))
+        hasNFT post k.1 k.2 || opBurns op k.1 k.2)
       then some "token-vanished"
   else if !((liveTokens post).all fun k =>
-        hasNFT pre k.1 k.2 || (match op with | .mint _ _ c t _ _ _ _ => c == k.1 && t == k.2 | _ => false))
+        hasNFT pre k.1 k.2 || opMints op k.1 k.2)
       then some "token-appeared"
   else if !((liveTokens pre).all fun k =>
-        !(hasNFT post k.1 k.2) || ownerOf post k.1 k.2 == ownerOf pre k.1 k.2 ||
-        (match op with | .transfer _ _ c t _ _ _ _ => c == k.1 && t == k.2 | _ => false))
+        !(hasNFT post k.1 k.2) || ownerOf post k.1 k.2 == ownerOf pre k.1 k.2 || opTransfers op k.1 k.2)
       then some "owner-changed"
   else none
 
@@ -199,5 +216,23 @@ def stepFail (pre : Obs) (op : Op) (accepted : Bool) (post : Obs) : Option Strin
   else if sameObs pre post then none else some "rejected-but-changed"
 
 def stepOk (pre : Obs) (op : Op) (accepted : Bool) (post : Obs) : Bool := (stepFail pre op accepted post).isNone
+
+/-! ### exactly what the driver evaluates, per kind of line (names of the failed clauses) -/
+
+/-- a delivered message: `accepted` / `panicked` are the result class of the observation -/
+def stepFails (pre : Obs) (op : Op) (accepted panicked : Bool) (post : Obs) : List String :=
+  (if panicked then ["panic"] else []) ++ (stepFail pre op accepted post).toList ++ (invFail post).toList
+
+/-- a pure ValidateBasic case (`nft vjson`): nothing is delivered, nothing may move -/
+def pureFails (pre post : Obs) : List String := if sameObs pre post then [] else ["rejected-but-changed"]
+
+/-- `nft export`: the module's own ValidateGenesis verdict on its own export -/
+def exportFails (validated : Bool) : List String := if validated then [] else ["export-invalid"]
+
+/-- `nft reimport`: InitGenesis of the export must not panic and must preserve every observed
+query; the invariant holds again afterwards -/
+def reimportFails (pre : Obs) (ok : Bool) (post : Obs) : List String :=
+  (if ok then [] else ["reimport-panic"]) ++
+  (if sameObs pre post then [] else ["reimport-changed-state"]) ++ (invFail post).toList
 
 end Irismod.Spec.C14
